@@ -100,3 +100,45 @@ Theorem C02_special_field_filled_from_its_capture :
       /\ forall d, get_field fs (ch :: nm) d = x.
 Proof. exact special_field_filled_from_its_capture. Qed.
 Print Assumptions C02_special_field_filled_from_its_capture.
+
+(* ================= "unmarshaling succeeds" =================
+   [conforms tm t j] (Proofs/DecodeConforms.v) says that the JSON value j has the shape the Go
+   type t expects: scalars of the right kind or null; null or a conforming value under a pointer;
+   null or an array of conforming values for a slice; for a struct an object in which EVERY
+   occurrence of a key that resolves to a field conforms to that field's type, which conforms as
+   a whole to every embedded fragment struct, and whose special fields have list-shaped captures
+   with conforming leaves; for an abstract type null or an object whose `__typename` names an
+   implementation it conforms to.  Conformance is EXACTLY success of the generated decoders: *)
+From Verif Require Import Rt.Acyclic Proofs.DecodeTerm Proofs.DecodeConforms.
+
+Theorem C02_conformant_responses_decode :
+  forall tm t j, conforms tm t j <-> exists m v, decode tm true m t j (zero_of t) = Ok v.
+Proof. exact conforms_iff_decodes. Qed.
+Print Assumptions C02_conformant_responses_decode.
+
+(* ... and for every type map without a cycle of embedded structs / implementations the outcome is
+   decided: from some fuel on the decoder returns a value exactly on conformant input and an
+   ERROR (never a panic, never divergence) exactly on everything else, whatever value it decodes into *)
+Theorem C02_value_iff_conformant_error_otherwise :
+  forall tm, same_json_acyclic tm -> forall t j cur, exists n,
+    (conforms tm t j /\ exists v, forall m, (n <= m)%nat -> decode tm true m t j cur = Ok v)
+    \/ (~ conforms tm t j /\ exists e, forall m, (n <= m)%nat -> decode tm true m t j cur = Err e).
+Proof. exact conforms_or_error. Qed.
+Print Assumptions C02_value_iff_conformant_error_otherwise.
+
+(* the executable form: at every fuel, "the model decoder returns a value" IS the conformance
+   check; the correspondence compares exactly this bit (and the value) with what the compiled
+   generated code did on every response of the reference executor *)
+Theorem C02_conformance_is_checked_per_response :
+  (forall tm n t j cur, is_ok (decode tm true n t j cur) = conformsb tm n t j)
+  /\ (forall tm n t j, conformsb tm n t j = true -> conforms tm t j).
+Proof. split; [exact decode_is_ok_conformsb | exact conformsb_sound]. Qed.
+Print Assumptions C02_conformance_is_checked_per_response.
+
+(* non-vacuity: the two-type response of C02_witness conforms; one with an unknown __typename does
+   not; an ill-shaped EARLIER duplicate of a key is an error although a later duplicate overwrites it *)
+Theorem C02_conformance_witness :
+  conforms JsonProofs.w_tm (GStruct (b "QResponse")) JsonProofs.w_resp_two
+  /\ ~ conforms JsonProofs.w_tm (GStruct (b "QResponse")) JsonProofs.w_resp_bad
+  /\ ~ conforms JsonProofs.w_tm (GStruct (b "QItemsA")) dup_early.
+Proof. split; [exact w_two_conforms|]. split; [exact w_bad_not_conforms | exact (proj1 dup_early_ill_shaped_errs)]. Qed.
